@@ -98,7 +98,7 @@ MUTANTS += [
     ('c13-exit-status-ignored-above-127', ['C13'], 'main.py', "            exit(returncode)", "            exit(returncode if returncode < 128 else 1)"),
     ('c13-env-not-set-when-present', ['C13', 'C19'], RU, "        env['WAYLAND_DEBUG'] = '1'", "        env.setdefault('WAYLAND_DEBUG', 'client')"),
     # ---- C16
-    ('c16-threshold-two-seconds-in-list', ['C16'], CT, "        if delta > 1.0:", "        if delta > (1.0 if self.last_shown_timestamp is None or len(self.all_messages) < 9 else 2.0):"),
+    ('c16-threshold-two-seconds-in-list', ['C16'], CT, "        if round(delta, 6) > 1.0:", "        if round(delta, 6) > (1.0 if self.last_shown_timestamp is None or len(self.all_messages) < 9 else 2.0):"),
     # ---- C17
     ('c17-unguarded-escape-in-null', ['C17'], ARG, "            return color(null_color, 'null ' + (self.type if self.type else '??'))", "            return color(null_color, 'null ') + (self.type if self.type else '\\x1b[1;91m??\\x1b[0m')"),
     ('c17-width-on-coloured-text', ['C17'], CT, "                    body = cmd.help.replace('\\n', '\\n' + ' ' * len(no_color(start)))", "                    body = cmd.help.replace('\\n', '\\n' + ' ' * len(start))"),
